@@ -61,9 +61,12 @@ impl AwakeFlag {
     /// This intentionally clears any previously set `NOTIFIED` flag.
     pub fn set(&self) {
         self.0.store(AWAKE, Ordering::Release);
+        #[cfg(compio_verif)]
+        crate::verif::emit(crate::verif::AWAKE_SET, self as *const _ as u64, -1);
     }
 
     /// Reset the flags. Returns true if it was notified.
+    #[cfg(not(compio_verif))]
     pub fn reset(&self) -> bool {
         (self.0.swap(IDLE, Ordering::AcqRel) & NOTIFIED) != 0
     }
@@ -71,7 +74,32 @@ impl AwakeFlag {
     /// Set the notified flag. Returns true if the awake flag is set or the
     /// notified flag is set. If the awake flag is not set, the driver needs
     /// to be notified through a syscall.
+    #[cfg(not(compio_verif))]
     pub fn wake(&self) -> bool {
         self.0.fetch_or(NOTIFIED, Ordering::AcqRel) != 0
+    }
+
+    /// `reset`, recording the value it replaced.
+    #[cfg(compio_verif)]
+    pub fn reset(&self) -> bool {
+        let prior = self.0.swap(IDLE, Ordering::AcqRel);
+        crate::verif::emit(
+            crate::verif::AWAKE_RESET,
+            self as *const _ as u64,
+            prior as i64,
+        );
+        (prior & NOTIFIED) != 0
+    }
+
+    /// `wake`, recording the value it found.
+    #[cfg(compio_verif)]
+    pub fn wake(&self) -> bool {
+        let prior = self.0.fetch_or(NOTIFIED, Ordering::AcqRel);
+        crate::verif::emit(
+            crate::verif::AWAKE_WAKE,
+            self as *const _ as u64,
+            prior as i64,
+        );
+        prior != 0
     }
 }
